@@ -41,6 +41,8 @@ pub struct Profile {
     pub ol_starts: bool,
     /// anchors without href carrying name=
     pub a_name: bool,
+    /// inline runs may begin with a <br> (a blank line before any content)
+    pub lead_br: bool,
 }
 
 impl Profile {
@@ -73,6 +75,7 @@ impl Profile {
             tiny_cells: true,
             ol_starts: true,
             a_name: false,
+            lead_br: false,
         }
     }
     pub fn no_tables(mut self) -> Profile {
@@ -205,7 +208,13 @@ impl<'a> DocGen<'a> {
             for _ in 0..n {
                 cls.push(format!("c{}", self.rng.below(4)));
             }
-            e.attrs.push(("class".into(), cls.join(" ")));
+            // class names are separated by any run of ASCII whitespace
+            let sep = *self.rng.pick(&[" ", " ", " ", "  ", "\t", "\n", "\x0c", " \n   "]);
+            let mut v = cls.join(sep);
+            if self.rng.chance(1, 10) {
+                v = format!("{}{}{}", sep, v, sep);
+            }
+            e.attrs.push(("class".into(), v));
         }
         e
     }
@@ -325,6 +334,9 @@ impl<'a> DocGen<'a> {
                 i += 1;
             }
         }
+        if self.p.lead_br && depth == 0 && self.rng.chance(1, 10) {
+            out.insert(0, El::new("br").node());
+        }
         // occasional edge whitespace
         if self.rng.chance(1, 8) {
             out.insert(0, Node::Space);
@@ -342,6 +354,14 @@ impl<'a> DocGen<'a> {
         let n = self.rng.range(1, max_blocks.max(1));
         let mut out = Vec::new();
         for _ in 0..n {
+            if self.p.lead_br && self.rng.chance(1, 12) {
+                // a bare line break between (or before) blocks, alone or in a paragraph of its own
+                if self.rng.chance(1, 2) {
+                    out.push(El::new("br").node());
+                } else {
+                    out.push(El::with("p", vec![El::new("br").node()]).node());
+                }
+            }
             if self.rng.chance(1, 6) {
                 // loose inline content directly in the flow container
                 let mw = self.p.max_words;
